@@ -1118,6 +1118,21 @@ def run_catalog(s, o):
     # "infinitely ill conditioned" for the moment-derived outputs (all other outputs are still compared)
     cen = np.asarray(split_unit(out['centroid'])[0], float).reshape(-1, 2)
     cond = np.where(np.isnan(cen).any(axis=1), np.inf, 1.0)
+    # tie band of the strict test `det(covariance) < 0 -> NaN` in SourceCatalog._covariance: for collinear pixels
+    # (diagonal pair, thin line) the determinant mu20*mu02 - mu11**2 is 0 in exact arithmetic and +-1e-17 in floating
+    # point, so NaN-or-regularised is decided by summation order; everything downstream (shape, Kron aperture,
+    # windowed centroid) follows. Such rows are excluded as a whole and counted.
+    mc = out.get('moments_central')
+    if mc is not None and not isinstance(mc, Raised):
+        m = np.asarray(split_unit(mc)[0], float).reshape(-1, 4, 4)
+        with np.errstate(all='ignore'):
+            mn = m / m[:, 0:1, 0:1]
+            det = mn[:, 0, 2] * mn[:, 2, 0] - mn[:, 1, 1] ** 2
+            scale = np.abs(mn[:, 0, 2] * mn[:, 2, 0]) + mn[:, 1, 1] ** 2
+            tie = np.isfinite(det) & (scale > 0) & (np.abs(det) <= 1e-9 * scale)
+        out['_notes']['rows_collinear_pixels(det(cov)=0 tie, excluded)'] = int(tie.sum())
+        rows = np.array(rows, dtype=float, copy=True)
+        rows[tie] = np.nan
     return out, rows, cond
 
 
